@@ -11,11 +11,12 @@
         node  = T <hex> | A expr | I expr nodes <hasElse 0|1> nodes | R expr nodes <hasElse> nodes
         expr  = f <Field> | v <Field> | s <hex> | eq e e | ne e e | not e | and e e | or e e
       cost[i] (0 ≤ i < L-1) = tokens of the REAL template+tokenizer on system(i) ++ msgs[i:],
-                or E (Execute returned an error) / P (Execute panicked)
+                or E (Execute returned an error) / P (Execute panicked) / K (the tokenizer
+                returned an error; at most one)
       The generic model runs on the real cost vector; for a non-opaque template the model also
       executes the template itself (prompt string, cross-check of the cost vector, and of the
       generic run).
-      -> panic:empty | err:too-many-images | err:preprocess | err:template | panic:template-cut
+      -> panic:empty | err:too-many-images | err:preprocess | err:template | err:tokenize | panic:template-cut
        | ok q=<tokenizer calls> imgs=<id:src:pre,…|-> msgs=<hex;…> prompt=<hex|?> costs=<ok|BAD@i|?>
          (msgs = contents of ALL messages after the call: chatPrompt rewrites msgs[n:] in place)
 
@@ -128,7 +129,7 @@ def pTmpl (fuel : Nat) : TP (Option (List Node)) := do
   | _ => failure
 
 /-- a cost token: a number, `E` (error) or `P` (panic) -/
-inductive CostTok | n (k : Nat) | e | p
+inductive CostTok | n (k : Nat) | e | p | k
   deriving DecidableEq
 
 def pCost : TP CostTok := do
@@ -136,6 +137,7 @@ def pCost : TP CostTok := do
   match t with
   | "E" => pure .e
   | "P" => pure .p
+  | "K" => pure .k
   | _ => match t.toNat? with
     | some k => pure (.n k)
     | none => failure
@@ -174,13 +176,16 @@ def handle (toks : List String) : Option String :=
       let cfg : Cfg := ⟨variant % 2 != 0, mllama != 0, proj, limit⟩
       let tv : TVar := ⟨variant / 2 % 4, variant / 8 % 2 != 0⟩
       let cost : Nat → Nat := fun i => match costs[i]? with | some (.n k) => k | _ => 0
-      let bad : Nat → Bool := fun i => match costs[i]? with | some .e => true | some .p => true | _ => false
+      let bad : Nat → Bool := fun i => match costs[i]? with
+        | some .e => true | some .p => true | some .k => true | _ => false
+      let tokFail : Option Nat := costs.findIdx? (· = CostTok.k)
       let generic := chatPrompt cfg cost bad msgs
       pure (match generic with
         | .panicEmpty => "panic:empty"
         | .errTooMany => "err:too-many-images"
         | .errPreprocess => "err:preprocess"
-        | .execFail i => (match costs[i]? with | some .p => "panic:template-cut" | _ => "err:template")
+        | .execFail i => (match costs[i]? with
+            | some .p => "panic:template-cut" | some .k => "err:tokenize" | _ => "err:template")
         | .ok q n sys ret imgs =>
           let all := msgs.take n ++ ret
           let ms := joinWith ";" (all.map fun m => hexOrDash (renderPieces m.content))
@@ -189,18 +194,19 @@ def handle (toks : List String) : Option String :=
           | some t =>
             let mine := (List.range (msgs.length - 1)).map fun i =>
               match renderAt tv t msgs i with
-              | .ok b => CostTok.n (tokenCount mode b)
+              | .ok b => if tokFail = some i then CostTok.k else CostTok.n (tokenCount mode b)
               | .err .panicCut => CostTok.p
               | .err _ => CostTok.e
             let chk := match firstBad costs mine 0 with
               | none => "ok"
               | some i => s!"BAD@{i}"
-            match chatPromptT cfg tv t mode msgs with
+            match chatPromptT cfg tv t mode msgs tokFail with
             | .ok q' n' _ _ imgs' p =>
               if q' = q ∧ n' = n ∧ imgs' = imgs then
                 s!"ok q={q} imgs={showImgs imgs} msgs={ms} prompt={hexOrDash p} costs={chk}"
               else s!"ok q={q} imgs={showImgs imgs} msgs={ms} prompt=TEMPLATE-MODEL-DISAGREES costs={chk}"
             | .tmplErr e => showErr e
+            | .tokErr => "err:tokenize"
             | _ => "template-model-disagrees")) rest
   | "resolve" :: rest =>
     runTP (do
@@ -233,6 +239,7 @@ def handle (toks : List String) : Option String :=
           | .errTooMany => "err:too-many-images"
           | .errPreprocess => "err:preprocess"
           | .tmplErr e => showErr e
+          | .tokErr => "err:tokenize"
           | .ok _ _ _ _ imgs p => s!"ok imgs={showImgs imgs} prompt={hexOrDash p}")) rest
   | "handler" :: rest =>
     runTP (do
